@@ -181,3 +181,59 @@ func VerifC20CodecRight(v *verifrt.T) {
 		v.Assert(e[i] == orig[i], "C20.codec.right.roundtrip")
 	}
 }
+
+// VerifC20Sequence: a cipher object is used for many keys, and a broker restart (or a second
+// broker with the same license) builds another object from the same secret. Two keys
+// encrypted one after the other by one object both decrypt - by that object and by a second
+// object built from the same secret - to themselves, whatever their salts (including 0) and
+// in whichever order the strings are decrypted: no state carried from one key to the next.
+func VerifC20Sequence(v *verifrt.T) {
+	kind := v.Choice(3, "cipher")
+	c := c20make(v, kind)
+	// the same secret again (the draws are named, so drawing them again yields the same values)
+	k1 := security.Key(v.Bytes(24, "k1"))
+	k2 := security.Key(v.Bytes(24, "k2"))
+	o1, o2 := append([]byte(nil), k1...), append([]byte(nil), k2...)
+	s1, err1 := c.EncryptKey(k1)
+	s2, err2 := c.EncryptKey(k2)
+	v.Assert(err1 == nil && err2 == nil, "C20.seq.encrypt-ok")
+	v.Reach("sequence-encrypted")
+	c2 := c20copy(c)
+	first := v.Bool("decrypt-second-first")
+	dec := func(x c20cipher, s string) []byte {
+		d, err := x.DecryptKey([]byte(s))
+		v.Assert(err == nil, "C20.seq.decrypt-ok")
+		return d
+	}
+	if first {
+		v.Assert(bytes.Equal(dec(c, s2), o2), "C20.seq.same-object-roundtrip")
+		v.Assert(bytes.Equal(dec(c, s1), o1), "C20.seq.same-object-roundtrip")
+	} else {
+		v.Assert(bytes.Equal(dec(c, s1), o1), "C20.seq.same-object-roundtrip")
+		v.Assert(bytes.Equal(dec(c, s2), o2), "C20.seq.same-object-roundtrip")
+	}
+	v.Assert(bytes.Equal(dec(c2, s1), o1) && bytes.Equal(dec(c2, s2), o2), "C20.seq.fresh-object-from-the-same-secret")
+	// and the fresh object encrypts to the same strings
+	t1, _ := c2.EncryptKey(security.Key(append([]byte(nil), o1...)))
+	v.Assert(t1 == s1, "C20.seq.same-secret-same-string")
+}
+
+// c20copy builds a second cipher object from the secret of the first (as NewXtea / NewSalsa /
+// NewShuffle do from the license): only the secret is copied, nothing the object learnt since.
+func c20copy(c c20cipher) c20cipher {
+	switch x := c.(type) {
+	case *Xtea:
+		y := new(Xtea)
+		y.key = x.key
+		return y
+	case *Salsa:
+		y := new(Salsa)
+		y.key, y.nonce = x.key, x.nonce
+		return y
+	case *Shuffle:
+		y := new(Shuffle)
+		y.key, y.nonce = x.key, x.nonce
+		return y
+	}
+	return nil
+}
